@@ -1,13 +1,7 @@
 (* Soundness side: a token returned by lex_one is a lexeme of its kind in the specification and the
-   lookahead restriction of the kind holds for the text that follows -- except for the one deviation
-   of the code (a quoted string whose first character is a line terminator), which is excluded by
-   lex_leading_lt. *)
+   lookahead restriction of the kind holds for the text that follows. *)
 From ApolloVerif Require Import Base.Chars Lex.Item Lex.Fun Lex.Spec Lex.LexProofs Lex.Bridge Lex.LexComplete.
 From Coq Require Import ZifyBool ZifyN.
-
-(* the known deviation: the text of a quoted string token starts  quote, line terminator *)
-Definition lex_leading_lt (d : str) : bool :=
-  match d with a :: c :: _ => (a =? 34) && lx_is_line_term c | _ => false end.
 
 (* ---------- numbers ---------- *)
 Lemma after_exp_sound pre r k d rest : lx_num_after_exp pre r = (LxTok k, d, rest) ->
@@ -306,13 +300,13 @@ Proof.
 Qed.
 
 Lemma lex_string_sound r k d rest : lex_string r = (LxTok k, d, rest) -> Forall SC r -> SC 34 ->
-  lex_leading_lt d = false ->
   Lexeme SC k d /\ Restrict SC k d rest.
 Proof.
-  unfold lex_string. destruct r as [|c r1]; [discriminate|]. intros H Hsc Hq Hlt.
+  destruct r as [|c r1]; [discriminate|]. intros H Hsc Hq.
   inversion Hsc as [|? ? Hc Hr1]; subst.
   destruct (N.eqb_spec c 34) as [->|Hc34].
-  - destruct r1 as [|q r2].
+  - unfold lex_string in H. change (34 =? 34) with true in H. cbv iota in H.
+    destruct r1 as [|q r2].
     { injection H as <- <- <-. split; [apply Lx_string, QS_empty|]. cbn [Restrict starts]. tauto. }
     destruct (N.eqb_spec q 34) as [->|Hq34].
     + destruct (lx_scan_block false r2) as [[d0 rest0] t] eqn:E. destruct t; [|discriminate].
@@ -320,14 +314,13 @@ Proof.
       apply (block_sound (length r2) r2 false) in E; [|reflexivity|assumption|discriminate].
       split; [apply Lx_block, BS_intro, E|]. cbn [Restrict]. intros [= ].
     + injection H as <- <- <-. split; [apply Lx_string, QS_empty|]. cbn [Restrict starts]. intros _. exact Hq34.
-  - destruct (lx_scan_str _ r1) as [[d0 rest0] e] eqn:E. destruct e; [discriminate|].
-    injection H as <- <- <-. cbn [lex_leading_lt] in Hlt. change (34 =? 34) with true in Hlt. cbn [andb] in Hlt.
-    assert (E2 : lx_scan_str LxSStr (c :: r1) = (c :: d0, rest0, false)).
-    { cbn [lx_scan_str]. replace (c =? 34) with false by lia. rewrite Hlt.
-      destruct (c =? 92); rewrite E; reflexivity. }
+  - rewrite (lex_string_scan SC c r1 Hc34) in H.
+    destruct (lx_scan_str LxSStr (c :: r1)) as [[d0 rest0] e] eqn:E2. destruct e; [discriminate|].
+    injection H as <- <- <-.
+    pose proof (scan_str_app _ _ _ _ _ E2) as Happ.
     apply (str_sound (length (c :: r1)) (c :: r1)) in E2 as [chunks [Hch Hd]]; [|reflexivity|assumption].
     assert (Hne : chunks <> []).
-    { intros ->. cbn in Hd. congruence. }
+    { intros ->. cbn in Hd. subst d0. cbn [app] in Happ. congruence. }
     split.
     + rewrite Hd. apply Lx_string. now apply QS_chars.
     + cbn [Restrict]. intros Heq. exfalso. rewrite Hd in Heq. injection Heq as Heq.
@@ -337,10 +330,9 @@ Qed.
 
 (* ---------- one step ---------- *)
 Theorem lex_one_sound c r k d rest : lex_one c r = (LxTok k, d, rest) -> Forall SC (c :: r) ->
-  lex_leading_lt d = false ->
   Lexeme SC k d /\ Restrict SC k d rest.
 Proof.
-  intros H Hsc Hlt. inversion Hsc as [|? ? Hc Hr]; subst.
+  intros H Hsc. inversion Hsc as [|? ? Hc Hr]; subst.
   destruct (first_class_total c) as [k0 Pk|Hn|Hnz| -> | -> | -> | -> | -> |Hw|Hp Hn Hd H1 H2 H3 H4 Hw].
   - unfold lex_one in H. rewrite Pk in H. injection H as <- <- <-.
     apply punct_kind_some in Pk.
